@@ -4,6 +4,9 @@ import MidnightZK.Gen.C07Poseidon
 import MidnightZK.Model.C07.Sha2
 import MidnightZK.Gen.C07Sha
 import MidnightZK.Model.C07.ShaVarlen
+import MidnightZK.Model.C07.ShaChip
+import MidnightZK.Model.C07.Sha512Chip
+import MidnightZK.Gen.C07ShaGates
 /-! Line-protocol handler of property C07. -/
 namespace MidnightZK.C07.Driver
 open MidnightZK MidnightZK.C07
@@ -103,8 +106,114 @@ def rmd160 : Rmd :=
   { k := Gen.rmdK, k' := Gen.rmdKPrime, iv := Gen.rmdIV, r := Gen.rmdR, r' := Gen.rmdRPrime,
     s := Gen.rmdS, s' := Gen.rmdSPrime }
 
+/-- The chip regions of a message of `n` blocks (emitter of `Model/C07/ShaChip.lean`), rendered. -/
+def shaTrace (n : Nat) : Array String × String :=
+  let t := Chip.emit Gen.sha256K Gen.sha256IV n
+  ((t.1.map (Chip.Region.render Gen.shaAdvCols Gen.shaFixedCols)).toArray,
+   ",".intercalate (t.2.plain.map (Chip.Src.render Gen.shaAdvCols)))
+
+/-- Closed terms: evaluated once at start-up. -/
+def shaTrace1 : Array String × String := shaTrace 1
+def shaTrace2 : Array String × String := shaTrace 2
+def shaTrace3 : Array String × String := shaTrace 3
+
+def shaTraceOf (n : Nat) : Option (Array String × String) :=
+  match n with
+  | 1 => some shaTrace1
+  | 2 => some shaTrace2
+  | 3 => some shaTrace3
+  | _ => none
+
+/-- Raw regions of the emitter (for the honest-witness check). -/
+def shaRegions1 : Array Chip.Region := (Chip.emit Gen.sha256K Gen.sha256IV 1).1.toArray
+def shaRegions2 : Array Chip.Region := (Chip.emit Gen.sha256K Gen.sha256IV 2).1.toArray
+def shaRegions3 : Array Chip.Region := (Chip.emit Gen.sha256K Gen.sha256IV 3).1.toArray
+
+/-- `name:value,…` pairs. -/
+def parsePairs? (s : String) : Option (List (String × Nat)) :=
+  if s = "-" then some [] else
+  (s.splitOn ",").mapM (fun item =>
+    match item.splitOn ":" with
+    | [n, v] => (parseNat? v).map (fun v => (n, v))
+    | _ => none)
+
+/-- `sha256sat n k cells sources`: does the given (real, honest) witness satisfy `Sat` of region `k`? -/
+def shaSat (n k : Nat) (cells srcs : String) : String :=
+  let regs := match n with
+    | 1 => shaRegions1 | 2 => shaRegions2 | 3 => shaRegions3 | _ => #[]
+  match regs[k]?, parsePairs? cells, parsePairs? srcs with
+  | some r, some cs, some ss =>
+    let find (l : List (String × Nat)) (key : String) : Nat := ((l.find? (fun kv => kv.1 == key)).map (·.2)).getD 0
+    let a : Chip.Asg := fun s =>
+      match s with
+      | .reg k' off col =>
+        if k' = k then find cs s!"{off}.{Gen.shaAdvCols.getD col 99}" else find ss (Chip.Src.render Gen.shaAdvCols s)
+      | .const v => v
+      | .ext i => find ss s!"X{i}"
+    -- every listed cell must be a canonical field element
+    if (cs ++ ss).any (fun kv => kv.2 ≥ Gen.shaModulus) then "fail:non-canonical" else
+    match Chip.satFailures Gen.shaModulus Gen.shaGates a k r with
+    | [] => if Chip.satB Gen.shaModulus Gen.shaGates a k r then "ok" else "fail:satB"
+    | fs => "fail:" ++ ",".intercalate fs
+  | _, _, _ => "bad-op"
+
+/-- The SHA-512 chip regions of a message of `n` blocks, rendered. -/
+def sha512Trace (n : Nat) : Array String × String :=
+  let t := Chip512.emit Gen.sha512K Gen.sha512IV n
+  ((t.1.map (Chip.Region.render Gen.sha512AdvCols Gen.shaFixedCols)).toArray,
+   ",".intercalate (t.2.plain.map (Chip.Src.render Gen.sha512AdvCols)))
+
+def sha512Trace1 : Array String × String := sha512Trace 1
+def sha512Trace2 : Array String × String := sha512Trace 2
+
+def sha512TraceOf (n : Nat) : Option (Array String × String) :=
+  match n with
+  | 1 => some sha512Trace1
+  | 2 => some sha512Trace2
+  | _ => none
+
+def spreadTab512 : Array (Nat × List (Nat × Nat)) := (Chip512.spreadTable Gen.sha512LookupLengths).toArray
+
+def spreadTab : Array (Nat × List (Nat × Nat)) := (Chip.spreadTable Gen.sha256LookupLengths).toArray
+
 def answer (line : String) : String :=
   match words line with
+  | ["sha256shape", n] =>
+    match n.toNat?.bind shaTraceOf with
+    | some t => s!"regions={t.1.size} externals={16 * n.toNat?.getD 0} outputs={t.2}"
+    | none => "bad-op"
+  | ["sha256region", n, k] =>
+    match n.toNat?.bind shaTraceOf, k.toNat? with
+    | some t, some k => t.1.getD k "no-such-region"
+    | _, _ => "bad-op"
+  | ["sha256sat", n, k, cells, srcs] =>
+    match n.toNat?, k.toNat? with
+    | some n, some k => shaSat n k cells srcs
+    | _, _ => "bad-op"
+  | ["sha512shape", n] =>
+    match n.toNat?.bind sha512TraceOf with
+    | some t => s!"regions={t.1.size} externals={16 * n.toNat?.getD 0} outputs={t.2}"
+    | none => "bad-op"
+  | ["sha512region", n, k] =>
+    match n.toNat?.bind sha512TraceOf, k.toNat? with
+    | some t, some k => t.1.getD k "no-such-region"
+    | _, _ => "bad-op"
+  | ["spread512tags"] => ",".intercalate (spreadTab512.toList.map (fun g => s!"{toHex g.1}:{g.2.length}"))
+  | ["spread512table", n, tag] =>
+    match n.toNat?, parseNat? tag with
+    | some n, some tag =>
+      match spreadTab512[n]? with
+      | some g => if g.1 = tag then ",".intercalate (g.2.map (fun r => s!"{toHex r.1}:{toHex r.2}")) else "wrong-tag"
+      | none => "no-such-group"
+    | _, _ => "bad-op"
+  | ["spreadtags"] => ",".intercalate (spreadTab.toList.map (fun g => s!"{toHex g.1}:{g.2.length}"))
+  | ["spreadtable", n, tag] =>
+    match n.toNat?, parseNat? tag with
+    | some n, some tag =>
+      match spreadTab[n]? with
+      | some g => if g.1 = tag then ",".intercalate (g.2.map (fun r => s!"{toHex r.1}:{toHex r.2}")) else "wrong-tag"
+      | none => "no-such-group"
+    | _, _ => "bad-op"
   | ["sha256", m] => match parseBytes? m with
     | some b => fmtBytes (sha256.digest b)
     | none => "bad-op"
